@@ -14,8 +14,8 @@ Theorem C09_udp_reply_id :
 Proof. exact C09_udp_reply_id_proof. Qed.
 Print Assumptions C09_udp_reply_id.
 
-(* Full statement: every message handed back answers the query's own question.  False of the code:
-   the receive loop tests the ID only. *)
+(* Transport layer fact (not a violation of the property any more: dialSend rejects such a response
+   before it reaches a client or the cache): DoUDP alone hands a query any datagram with its ID. *)
 Definition C09_udp_own_answer_full : Prop :=
   forall evs qs, length qs = length (uq_ids evs) -> udp_results_ok evs qs = true.
 
@@ -47,27 +47,22 @@ Theorem C09_reply_id :
 Proof. exact C09_reply_id_proof. Qed.
 Print Assumptions C09_reply_id.
 
-(* Full statement: every reply also carries the client's question and only answers to it, and the
-   cache holds under each key only answers to that key.  False of the code: the question section of an
-   upstream response is never compared with the request. *)
-Definition C09_reply_question_cache_full : Prop :=
-  forall packed pnew fallback udp tcp rounds, ctl_full_ok packed pnew fallback udp tcp rounds = true.
-
-Theorem C09_reply_question_cache_refuted :
-  exists packed pnew fallback udp tcp rounds, ctl_full_ok packed pnew fallback udp tcp rounds = false.
-Proof. exact C09_reply_question_cache_refuted_proof. Qed.
-Print Assumptions C09_reply_question_cache_refuted.
-
-(* C09_reply_id_question / C09_cache_only_answers_to_key of the design, as far as they are true: for
-   upstream forwarders whose every response echoes the question it was asked (class IN) and carries only
-   answers to it, and clients asking in class IN, every reply on every path carries the client's ID and
-   question and only answers to it, and every cache entry holds only answers to its key. *)
-Theorem C09_reply_question_cache_partial :
+(* C09_reply_id_question and C09_cache_only_answers_to_key of the design, at full strength: for ALL
+   upstream behaviours (any scripts of responses for the primary and the fallback forwarder: right or
+   foreign question, no question, any rcode, truncated, errors), all rounds of concurrent clients and both
+   cache-hit paths, every reply dae writes carries the client's own ID and question and only records of an
+   upstream answer to that question, and every cache entry holds only records of an answer to its key.
+   "Answer to q" = the answer section of an upstream response whose question section is q: scripts_tagged
+   is this labelling convention of the description (each record is labelled by the question of the message
+   that carries it), not a restriction on the upstream.  Clients ask in class IN (the cache key ignores
+   the class; other classes are outside this theorem).  The proof rests on checkDnsResponseQuestion in
+   dialSend. *)
+Theorem C09_reply_question_cache :
   forall packed pnew fallback udp tcp rounds,
-    scripts_honest udp = true -> scripts_honest tcp = true -> forallb clients_in rounds = true ->
+    scripts_tagged udp = true -> scripts_tagged tcp = true -> forallb clients_in rounds = true ->
     ctl_full_ok packed pnew fallback udp tcp rounds = true.
-Proof. exact C09_reply_question_cache_partial_proof. Qed.
-Print Assumptions C09_reply_question_cache_partial.
+Proof. exact C09_reply_question_cache_proof. Qed.
+Print Assumptions C09_reply_question_cache.
 
 (* Concurrent identical questions cause one upstream resolution whose result reaches every waiter:
    in every round, for any state, every client gets an outcome, each resolution performed in the round
@@ -97,22 +92,14 @@ Theorem C09_forwarder_close_once :
 Proof. exact C09_forwarder_close_once_final. Qed.
 Print Assumptions C09_forwarder_close_once.
 
-(* Full statement: the whole lifecycle spec, including "closed only after its last in-flight query".
-   False of the code: endUse performs inFlight.Add(-1) and retired.Load() as two atomic operations. *)
-Definition C09_forwarder_lifecycle_full : Prop :=
+(* The whole lifecycle spec at full strength, for every schedule of the atomic steps (endUse = decrement,
+   load of retired, re-load of inFlight): Close runs at most once, only when retired and with nothing in
+   flight at the closing step's load (no query is inside ForwardDNS, none enters afterwards), and exactly
+   once at quiescence after retire(). *)
+Theorem C09_forwarder_lifecycle :
   forall evs, fwd_ok (fwd_obs_of (frun evs)) = true.
-
-Theorem C09_forwarder_lifecycle_refuted :
-  exists evs, fwd_ok (fwd_obs_of (frun evs)) = false.
-Proof. exact C09_forwarder_lifecycle_refuted_proof. Qed.
-Print Assumptions C09_forwarder_lifecycle_refuted.
-
-(* It holds for every schedule in which no other goroutine takes a step while a user sits between the
-   two atomic operations of endUse. *)
-Theorem C09_forwarder_lifecycle_partial :
-  forall evs, f_window (frun evs) = false -> fwd_ok (fwd_obs_of (frun evs)) = true.
-Proof. exact C09_forwarder_lifecycle_partial_proof. Qed.
-Print Assumptions C09_forwarder_lifecycle_partial.
+Proof. exact C09_forwarder_lifecycle_proof. Qed.
+Print Assumptions C09_forwarder_lifecycle.
 
 (* ---- pipelined TCP/TLS connection ------------------------------------------------------------ *)
 
@@ -129,8 +116,8 @@ Theorem C09_pipelined_ids_unique :
 Proof. exact C09_pipelined_ids_unique_proof. Qed.
 Print Assumptions C09_pipelined_ids_unique.
 
-(* Full statement: every delivered message answers the receiving query's own question.  False: wire
-   IDs are reused immediately and the question section is not compared. *)
+(* Transport layer fact (not a violation of the property any more: dialSend rejects such a response):
+   wire IDs are reused immediately and the pipelined connection does not compare questions. *)
 Definition C09_pipelined_own_answer_full : Prop :=
   forall qs evs, pipe_model_ok qs (prun evs) = true.
 
@@ -150,7 +137,7 @@ Print Assumptions C09_pipelined_own_answer_partial.
 Example C09_nonvacuous :
   (* two users, one retirer, all finished: closed exactly once, nobody in flight *)
   (let s := frun [FSpawnU; FSpawnU; FSpawnR; FU 0; FU 0; FU 0; FU 1; FR 0; FU 1; FU 1; FR 0; FU 0; FU 0; FU 1]%nat in
-   f_window s = false /\ fwd_ok (fwd_obs_of s) = true /\ fo_closes (fwd_obs_of s) = 1 /\ fo_quiescent (fwd_obs_of s) = true)
+   fwd_ok (fwd_obs_of s) = true /\ fo_closes (fwd_obs_of s) = 1 /\ fo_quiescent (fwd_obs_of s) = true)
   /\ (* an honest pipelined exchange with two overlapping queries *)
   (let qs := [(1, wq1); (2, wq2)] in
    let evs := [PStart 1; PStart 2; PResp (wm2 1); PResp (wm1 0); PFinish 2; PFinish 1] in
